@@ -10,14 +10,17 @@ MANIFEST = {
             "C03_terminated_handles_nothing, C03_nothing_handled_after_terminated — nothing at all after its own OnTerminated, a restart "
             "cannot revive it. C03_restart_completes_in_order (Kernel/Restart.v): the step that completes a restart shows exactly four "
             "Handled observations, in order — OnTerminate, OnTerminated by the old instance number, OnRestarted, OnLaunch by the number the "
-            "provider hands out in that step — whatever the handlers do, and leaves the actor alive. C03_no_user_message_while_restarting_partial "
+            "provider hands out in that step — whatever the handlers do, and leaves the actor alive. "
+            "C03_restarting_actor_is_suspended_partial / C03_restarting_actor_handles_no_user_message_partial (Kernel/Held.v; hypotheses of the "
+            "hierarchy invariant on the role table): in every reachable state a Restarting actor is suspended with no user message in flight, so a "
+            "step of its mailbox handles no user message — whatever arrives meanwhile, Resume decisions included. C03_no_user_message_while_restarting_partial "
             "(with C04_own_step_ending_suspended_is_waiting): between OnRestarting and that step the actor is waiting and stays so through "
             "every step without a marker for its address, provided no resume request is pending; C03_resume_request_ignored_unless_alive: a "
             "supervisor's Resume decision, which travels as a queued request since fix 925aa8b, is ignored by a restarting actor.",
-    "note": "Partial: 'OnTerminate before own OnTerminated', the freshness of the new instance number and 'no user message while restarting' "
-            "in the presence of Resume decisions that arrive during the restart are per-run (correspondence, lockstep corpus, monitors), not "
-            "theorems over all runs — the last one is the defect 925aa8b, found by the attempt to prove it (the model produced the history by "
-            "vm_compute, harness/cmd/kscript replayed it on the implementation). C03_launch_first is about the model, whose spawn registers the address and queues OnLaunch in one step; in the code "
+    "note": "Partial: 'OnTerminate before own OnTerminated' and the freshness of the new instance number are per-run (correspondence, "
+            "monitors), not theorems; the restarting-actor invariant carries the hierarchy hypotheses on the role table. The invariant is the "
+            "statement whose proof attempt exposed defect 925aa8b (the model produced the refuting history by vm_compute, harness/cmd/kscript "
+            "replayed it on the implementation). C03_launch_first is about the model, whose spawn registers the address and queues OnLaunch in one step; in the code "
             "these were two steps of ActorOf with a window in between (a message sent to the new address was handled before OnLaunch: "
             "13 of 3000 spawns in findings/C03-message-before-onlaunch_demo_test.go) — repaired by bde59a1 (mailbox created suspended "
             "until OnLaunch is taken up) and watched on every run by the actor-level harness c01turns (C03:turns:*). Seven defects were "
